@@ -1169,8 +1169,10 @@ class TLSConnection(TLSRecordLayer):
                 AlertDescription.illegal_parameter,
                 "Server responded with unrequested NPN Extension"):
                 yield result
-        if not serverHello.getExtension(ExtensionType.extended_master_secret)\
-            and settings.requireExtendedMasterSecret:
+        if real_version < (3, 4) and \
+                not serverHello.getExtension(
+                    ExtensionType.extended_master_secret) and \
+                settings.requireExtendedMasterSecret:
             for result in self._sendError(
                     AlertDescription.insufficient_security,
                     "Negotiation of Extended master Secret failed"):
